@@ -22,8 +22,8 @@ def conds(tier):
                     encodes=core.ENC_SCHED))
     out.append(core.fault_cond("fault", P, [4], g0modes=2 if q else 3, g1modes=3, pin=4, budget=200, slim=q))
     if not q:
-        out.append(Cond("tree4", core.mk_tree(P, 4, 3, 3), core.tree_params(4, 3, 3), pin=4, budget=900,
-                        family="F-TREE(4,3,3)", encodes=core.ENC_SCHED))
+        out.append(Cond("tree4", core.mk_tree(P, 4, 2, 2), core.tree_params(4, 2, 2), pin=4, budget=900,
+                        family="F-TREE(4,2,2)", encodes=core.ENC_SCHED))
         out.append(Cond("tree1k4", core.mk_tree(P, 4, 3, 1, single_kind=True), core.tree_params(4, 3, 1, True),
                         pin=3, budget=600, family="F-TREE(4,3,1)", encodes=core.ENC_SCHED))
         out.append(Cond("steps3", core.mk_steps(P, 3, 3, 3, 0), core.steps_params(3, 3, 3, 0), pin=3, budget=600,
